@@ -143,6 +143,35 @@ def no_schemas():
     return d
 
 
+def redirects_and_codes():
+    """declared 1xx/3xx responses, unusual 4xx/5xx codes, a shared component response and component parameters"""
+    return {"openapi": "3.0.3", "info": {"title": "Codes", "version": "1"}, "paths": {
+        "/docs/{id}": {"get": {"operationId": "getDoc", "tags": ["docs"], "parameters": [{"$ref": "#/components/parameters/DocId"}, {"$ref": "#/components/parameters/IfNone"}],
+                               "responses": {"200": jresp(R("Doc")), "304": {"description": "not modified"}, "302": {"description": "moved"},
+                                             "404": {"$ref": "#/components/responses/Problem"}, "499": {"$ref": "#/components/responses/Problem"},
+                                             "520": {"description": "origin error"}}},
+                       "delete": {"operationId": "deleteDoc", "tags": ["docs"], "parameters": [{"$ref": "#/components/parameters/DocId"}],
+                                  "responses": {"204": {"description": "gone"}, "409": {"$ref": "#/components/responses/Problem"}}}}},
+        "components": {"schemas": {"Doc": {"type": "object", "properties": {"id": {"type": "integer"}, "meta": {"type": "object", "additionalProperties": True}}},
+                                   "ProblemBody": {"type": "object", "properties": {"detail": {"type": "string"}}}},
+                       "parameters": {"DocId": {"name": "id", "in": "path", "required": True, "schema": {"type": "integer"}},
+                                      "IfNone": {"name": "If-None-Match", "in": "header", "schema": {"type": "string"}}},
+                       "responses": {"Problem": {"description": "problem", "content": {"application/json": {"schema": R("ProblemBody")}}}}}}
+
+
+def promoted_name_collisions():
+    """component names that coincide with the names the generator invents for promoted inline schemas"""
+    return doc("Promoted", {
+        "OrderLines": {"type": "object", "properties": {"note": {"type": "string"}}},
+        "Order": {"type": "object", "properties": {"lines": {"type": "array", "items": {"type": "object", "properties": {"sku": {"type": "string"}, "qty": {"type": "integer"}}}},
+                                                   "matrix": {"type": "array", "items": {"type": "array", "items": {"type": "integer"}}},
+                                                   "status": {"type": "string", "enum": ["open", "closed"]}}},
+        "OrderStatus": {"type": "string", "enum": ["x", "y"]},
+        "OrderLinesItem": {"type": "object", "properties": {"other": {"type": "boolean"}}},
+        "OrderMatrix": {"type": "object", "properties": {"m": {"type": "integer"}}},
+    }, {"/orders": {"get": {"operationId": "listOrders", "responses": {"200": jresp({"type": "array", "items": R("Order")})}}}})
+
+
 REP = {
     "petstore": petstore,
     "unions": enums_and_unions,
@@ -150,6 +179,8 @@ REP = {
     "streams": streaming_and_content,
     "cycles": cyclic_models,
     "names": naming_collisions,
+    "codes": redirects_and_codes,
+    "promoted": promoted_name_collisions,
     "no_ops": no_operations,
     "no_schemas": no_schemas,
 }
